@@ -74,3 +74,22 @@ brk("C19", "schedules-raw-input", "R19.5", [("app/composable.py", "    inputs = 
 twin("C19", "bare-with-finally-exit", [("util/dict_array.py", "        with atomic_write(path, mode=\"wt\") as outfile:\n            outfile.write(data)", "        aw = atomic_write(path, mode=\"wt\")\n        with aw as outfile:\n            outfile.write(data)")])
 twin("C19", "os-replace", [("util/io.py", "        src.replace(dest)\n", "        import os\n\n        os.replace(src, dest)\n")])
 twin("C19", "exit-respelled", [("util/io.py", "        if exc_type is None:\n            self._close_func(self._tmppath)\n            self.succeeded = True\n        else:\n            self.succeeded = False\n            shutil.rmtree(self._tmppath.parent)", "        if exc_type is not None:\n            self.succeeded = False\n            shutil.rmtree(self._tmppath.parent)\n        else:\n            self._close_func(self._tmppath)\n            self.succeeded = True")])
+
+# ---------------------------------------------------------------- C13
+brk("C13", "drop-unguarded", "R13.1", [("app/data_store.py", '        if self.mode is READONLY:\n            raise IOError("datastore is readonly")\n        unique_id = unique_id.replace', "        unique_id = unique_id.replace")], names="drop_not_completed")
+brk("C13", "mkdir-before-check", "R13.1", [("app/data_store.py", "        self._check_writable(unique_id)\n        (self.source / _LOG_TABLE).mkdir(parents=True, exist_ok=True)", "        (self.source / _LOG_TABLE).mkdir(parents=True, exist_ok=True)")], names="write_log")
+brk("C13", "write-check-removed", "R13.1", [("app/data_store.py", "        super().write(unique_id=unique_id, data=data)\n        assert suffix", "        assert suffix")], names="open_(")
+brk("C13", "check-writable-readonly-gone", "R13.1", [("app/data_store.py", '        if self.mode is READONLY:\n            raise IOError("datastore is readonly")\n        elif unique_id in self and self.mode is APPEND:', "        if unique_id in self and self.mode is APPEND:")], names="DataStoreDirectory")
+brk("C13", "sqlite-always-rw", "R13.1", [("app/sqlite_data_store.py", "db_func = open_sqlite_db_ro if self.mode is READONLY else open_sqlite_db_rw", "db_func = open_sqlite_db_rw")], names="read-only handle")
+brk("C13", "endswith-back", "R13.2", [("app/data_store.py", "if unique_id and Path(m.unique_id).name != unique_id:", "if unique_id and not m.unique_id.endswith(unique_id):")], names="endswith")
+brk("C13", "contains-substring", "R13.2", [("app/data_store.py", '            has_suffix = not self.suffix or item.endswith(f".{self.suffix}")\n', '            has_suffix = self.suffix in item\n')], names="__contains__")
+brk("C13", "md5-replace-back", "R13.2", [("app/data_store.py", '        unique_id = f"{unique_id.removesuffix(suffix)}txt"', '        unique_id = unique_id.replace(suffix, "txt")')], names="replace(suffix, 'txt')")
+brk("C13", "sqlite-contains-prefix", "R13.2", [("app/sqlite_data_store.py", "        if unique_id in self and self.mode is not APPEND:", "        if any(m.unique_id.startswith(unique_id) for m in self) and self.mode is not APPEND:")], names="startswith")
+brk("C13", "write-no-drop", "R13.3", [("app/data_store.py", "        self.drop_not_completed(unique_id=unique_id)\n        if member is not None:\n            self._completed.append(member)", "        if member is not None:\n            self._completed.append(member)")], names="DataStoreDirectory.write")
+brk("C13", "sqlite-drop-conditional", "R13.3", [("app/sqlite_data_store.py", "        self.drop_not_completed(unique_id=unique_id)\n\n        member = self._write(", "        if self.mode is OVERWRITE:\n            self.drop_not_completed(unique_id=unique_id)\n\n        member = self._write(")], names="DataStoreSqlite.write")
+brk("C13", "update-drops-is-completed", "R13.4", [("app/sqlite_data_store.py", 'SET data= ?, log_id=?, md5=?, is_completed=? WHERE record_id=?"\n            self.db.execute(cmnd, (data, self._log_id, md5, is_completed, unique_id))', 'SET data= ?, log_id=?, md5=? WHERE record_id=?"\n            self.db.execute(cmnd, (data, self._log_id, md5, unique_id))')], names="UPDATE vs INSERT")
+brk("C13", "append-overwrite-allowed", "R13.5", [("app/data_store.py", "        elif unique_id in self and self.mode is APPEND:\n            raise IOError(\"cannot overwrite existing record in append mode\")\n", "")], names="APPEND")
+brk("C13", "sqlite-write-before-check", "R13.5", [("app/sqlite_data_store.py", "        super().write_not_completed(unique_id=unique_id, data=data)\n        member = self._write(\n            table_name=_RESULT_TABLE, unique_id=unique_id, data=data, is_completed=False\n        )", "        member = self._write(\n            table_name=_RESULT_TABLE, unique_id=unique_id, data=data, is_completed=False\n        )\n        super().write_not_completed(unique_id=unique_id, data=data)")], names="DataStoreSqlite.write_not_completed")
+twin("C13", "guard-inline", [("app/data_store.py", '        self._check_writable(unique_id)\n        (self.source / _LOG_TABLE).mkdir(parents=True, exist_ok=True)', '        if self.mode is READONLY:\n            raise IOError("datastore is readonly")\n        (self.source / _LOG_TABLE).mkdir(parents=True, exist_ok=True)')])
+twin("C13", "exact-match-respelled", [("app/data_store.py", "if unique_id and Path(m.unique_id).name != unique_id:", "if unique_id and not (Path(m.unique_id).name == unique_id):")])
+twin("C13", "suffix-test-via-path", [("app/data_store.py", '            has_suffix = not self.suffix or item.endswith(f".{self.suffix}")\n', '            has_suffix = not self.suffix or Path(item).suffix == f".{self.suffix}"\n')])
